@@ -161,6 +161,8 @@ def _local_guard(f, env):
     """does guard fact f depend on a local that is not an alias of a member path?"""
     for d in f[3]:
         if d[0] == "v":
+            if d[1] in getattr(env, "version_locals", ()):
+                continue  # a cached version expression, evaluated per region like the expression itself
             a = env.alias.get(d[1])
             if a is None or a[0][0] != "this":
                 if d[1] in env.param_index:
@@ -284,6 +286,25 @@ class Summarizer:
                 v = _const_eval(e, pconst)
                 return None if v is None else bool(v)
 
+        import versions as _versions
+        vlocals = set()
+        assigned = set(n["l"]["id"] for n in walk(fn.get("body") or {}) if n["k"] == "Assign" and is_node(n["l"]) and n["l"]["k"] == "Ref")
+        for n in walk(fn.get("body") or {}):
+            if n["k"] == "Decl":
+                for v in n.get("vars", []):
+                    if is_node(v.get("init")) and v["id"] not in assigned and _versions.pure_version_init(v["init"]):
+                        _versions.VERSION_LOCALS[(v["id"], v["name"])] = v["init"]
+                        vlocals.add(v["id"])
+        if fn["name"] in _versions.READER_ALIASES:
+            # frozen alias table (DESIGN R1.3): locals of the header reader that hold what SetFile/SetUser/SetStream store
+            table = _versions.READER_ALIASES[fn["name"]]
+            for n in walk(fn.get("body") or {}):
+                if n["k"] == "Decl":
+                    for v in n.get("vars", []):
+                        if v["name"] in table:
+                            _versions.VERSION_LOCALS[(v["id"], v["name"])] = table[v["name"]]
+                            vlocals.add(v["id"])
+        env.version_locals = vlocals
         col = C(self.F, fn, lambda n: n["k"] in kinds or n["k"] in ("Assign", "Unary"), mode=self.mode)
         col.partition = False  # one state per node: summaries list every event once
         if self.value_proxies:
